@@ -460,6 +460,9 @@ def make_sites(t, model, port, hl, seed):
 
 def main(chk, replay=None):
     from harness import c05_lib as L
+    # the string operators of Links.tla recurse once per character; long abstract strings (deep selectors, long search
+    # strings) need a deeper Java stack than TLC's worker threads get by default
+    os.environ.setdefault("JAVA_TOOL_OPTIONS", "-Xss512m")
     t = TIERS[chk.tier]
     models, ks, timing = {}, {}, []
     # 1. the design model, once per advertised port
